@@ -236,6 +236,51 @@ def rule_pooling(ctx: Ctx) -> None:
                       f"the ground-truth total is updated by {augs} / stores {len(st)}; it must only ever add the sum of the per-label counts", fi=fm)
 
 
+def rule_frame_scoring(ctx: Ctx) -> None:
+    """evaluate_frame: the frame's results / critical ground truth are divided by the critical filter's labels and handed to exactly the scorers the
+    configuration enables; tracking additionally gets [previous frame's results, this frame's results] per label; pass/fail is always evaluated."""
+    fi = ctx.func("evaluation.result.perception_frame_result.PerceptionFrameResult.evaluate_frame")
+    TL = "self.pass_fail_result.critical_object_filter_config.target_labels"
+    RES = f"divide_objects(self.object_results,{TL})"
+    NGT = f"divide_objects_to_num(self.frame_ground_truth.objects,{TL})"
+    n = 0
+    for p in enum_paths(ctx, fi):
+        cd = {S(c[0]): c[1] for c in p.conds if isinstance(c, tuple)}
+        on = {k: (None if cd.get(f"none:self.metrics_score.{k}_config") is None else not cd.get(f"none:self.metrics_score.{k}_config")) for k in ("detection", "tracking", "classification")}
+        ctx.require(all(v is not None for v in on.values()), "evaluate_frame: the tests of the three metric configurations were not recognised")
+        calls = {}
+        for e in p.effects:
+            if e.kind == "call" and e.name in ("evaluate_detection", "evaluate_tracking", "evaluate_classification") and S(e.recv) == "self.metrics_score":
+                calls.setdefault(e.name, []).append([strip_v(S(a)) for a in e.args])
+        n += 1
+        tag = "".join(str(int(on[k])) for k in ("detection", "tracking", "classification"))
+        for k in ("detection", "classification"):
+            got = calls.get(f"evaluate_{k}", [])
+            ctx.check(got == ([[RES, NGT]] if on[k] else []), "C13-frame-scoring", "evaluate_frame", f"{k}:{tag}",
+                      f"with the {k} metrics {'configured' if on[k] else 'off'} evaluate_{k} is called with {[[a[:60] for a in g] for g in got]}; expected {'once with (results by label, ground-truth counts by label) of THIS frame' if on[k] else 'not at all'}",
+                      fi=fi, expected=str([[RES[:40], NGT[:40]]] if on[k] else []), found=str(got)[:200])
+        got = calls.get("evaluate_tracking", [])
+        ctx.check((len(got) == 1) == on["tracking"], "C13-frame-scoring", "evaluate_frame", f"tracking:{tag}", f"with tracking {'configured' if on['tracking'] else 'off'} evaluate_tracking is called {len(got)}x", fi=fi)
+        if on["tracking"] and len(got) == 1:
+            ctx.check(len(got[0]) == 2 and got[0][0] == "tracking_results" and got[0][1] == NGT, "C13-frame-scoring", "evaluate_frame", f"tracking-args:{tag}", f"evaluate_tracking receives {[a[:60] for a in got[0]]}", fi=fi)
+            asg = [strip_v(S(e.value)) for e in p.effects if e.kind == "assign" and e.recv == "tracking_results"]
+            ctx.check(asg[:1] == [RES + ".copy()"], "C13-frame-scoring", "evaluate_frame", f"tracking-base:{tag}", f"tracking_results starts as `{asg[:1]}`; expected a copy of this frame's results by label", fi=fi)
+            prevn = cd.get("none:previous_result")
+            lps = [e for e in p.effects if e.kind == "loop"]
+            want_iter = ("{label:[]forlabelin" + TL + "}.items()") if prevn else f"divide_objects(previous_result.object_results,{TL}).items()"
+            okl = len(lps) == 1 and S(lps[0].text) == want_iter
+            if okl:
+                lv, pv = [U(x) for x in lps[0].node.target.elts]
+                for bp in lps[0].body:
+                    st = [(strip_v(S(e.recv)), strip_v(S(e.value))) for e in bp.effects if e.kind == "store"]
+                    okl = okl and st == [(f"tracking_results[{lv}]", f"[{pv},tracking_results[{lv}]]")] and not bp.conds
+            ctx.check(prevn is not None and okl, "C13-frame-scoring", "evaluate_frame", f"tracking-history:prev_none={prevn}",
+                      f"per label the tracking input is not [previous frame's results, this frame's results] with the previous results taken from {'nothing (first frame)' if prevn else 'previous_result only'}", fi=fi)
+        pf = [[strip_v(S(a)) for a in e.args] for e in p.effects if e.kind == "call" and e.name == "evaluate" and S(e.recv) == "self.pass_fail_result"]
+        ctx.check(pf == [["self.object_results", "self.frame_ground_truth.objects"]], "C13-frame-scoring", "evaluate_frame", f"pass-fail:{tag}", f"pass/fail is evaluated as {pf}; expected once, on the filtered results and critical ground truth", fi=fi)
+    ctx.require(n >= 8, f"evaluate_frame: only {n} paths")
+
+
 def rule_score_container(ctx: Ctx) -> None:
     """MetricsScore: one score object per configured (matching mode, threshold), built from the given per-label results and counts and kept in the
     container; the ground-truth total is added exactly once per evaluated frame / scene (not twice when tracking scores the same ground truth)."""
@@ -305,6 +350,7 @@ def run(ctx: Ctx) -> None:
     ctx.run(rule_history)
     ctx.run(rule_pooling)
     ctx.run(rule_score_container)
+    ctx.run(rule_frame_scoring)
     from rules import C10
     ctx.run(C10.rule_manager)
     from rules import C04
